@@ -414,6 +414,9 @@ func execClientHistory(o *out, f [][]int) []int {
 			}
 			tid := clientTID(id)
 			m := &stun.Message{TransactionID: tid, Raw: append([]byte(nil), raw...)}
+			if len(raw) >= 2 {
+				m.Type.ReadValue(uint16(raw[0])<<8 | uint16(raw[1])) // the struct as Build would leave it: any class, any method
+			}
 			h.mu.Lock()
 			prev, hadPrev := h.tidInst[tid]
 			if inst >= 0 {
@@ -738,7 +741,11 @@ func stunMsg(r *rng, id int, size int) []byte {
 	}
 	body = body / 4 * 4
 	t := clientTID(id)
-	b := header(0x0001, body, t[:])
+	typ := 0x0001
+	if r.chance(1, 3) {
+		typ = r.pick([]int{0x0011, 0x0011, 0x0101, 0x0111, 0x0003, r.intn(0x4000)}) // what is sent need not be a request
+	}
+	b := header(typ, body, t[:])
 	for body > 0 {
 		l := body - 4
 		if l > 60000 {
@@ -1772,6 +1779,46 @@ func moreClientScenarios(o *out, r *rng) {
 		}
 		_ = e.c.Close()
 		o.count("retry-same-id / zero-id")
+	}
+	// (4b) the all-zero transaction ID through retransmissions: a timeout, then a response; and all the way to the
+	// final timeout
+	for i := 0; i < 8; i++ {
+		e := mk(false)
+		if e == nil {
+			continue
+		}
+		var tid [12]byte
+		raw := stunMsg(r, 1, 20)
+		copy(raw[8:20], tid[:])
+		n := 0
+		var last stun.Event
+		_ = e.c.Start(&stun.Message{TransactionID: tid, Raw: raw}, func(ev stun.Event) { e.mu.Lock(); n++; last = ev; e.mu.Unlock() })
+		now := agentBase
+		rounds := 1 + i%3
+		if i >= 4 {
+			rounds = 9 // more than the 7 retransmissions: ends in a timeout
+		}
+		for k := 1; k <= rounds; k++ {
+			now = now.Add(time.Duration(100*k + 1))
+			e.clock.set(now)
+			e.coll.f(now)
+		}
+		if i < 4 {
+			e.conn.rd <- header(0x0101, 0, tid[:])
+			idle(e)
+		}
+		_ = e.c.Close()
+		e.mu.Lock()
+		got, lastErr := n, last.Error
+		e.mu.Unlock()
+		wantTimeout := i >= 4
+		if got != 1 || (wantTimeout != errors.Is(lastErr, stun.ErrTransactionTimeOut)) {
+			d := fmt.Sprintf("x zero-transaction-id #%d after %d collector ticks: invoked=%d error=%v", i, rounds, got, lastErr)
+			o.failFor("C10", "handler-not-invoked-exactly-once", d)
+			o.failFor("C11", "handler-not-invoked-exactly-once", d)
+			o.failFor("C12", "handler-not-invoked-exactly-once", d)
+		}
+		o.count("zero-id-through-retransmissions")
 	}
 	// (5) the library's own ticker collector with a custom clock: deadlines are judged by that clock
 	for i := 0; i < 6; i++ {
